@@ -107,6 +107,7 @@ type HandshakeConfig struct {
 	LocalSRTPProtectionProfiles   []SRTPProtectionProfile
 	LocalSRTPMasterKeyIdentifier  []byte
 	ServerName                    string
+	VerifyServerName              string // configured name when not usable as SNI (IP literal): still has to match the certificate
 	SupportedProtocols            []string
 	ClientAuth                    ClientAuthType
 	LocalCertificates             []tls.Certificate
@@ -140,6 +141,15 @@ type HandshakeConfig struct {
 
 	nameToCertificate map[string]*tls.Certificate
 	mu                sync.Mutex
+}
+
+// ServerCertificateName returns the name the server certificate is verified against.
+func (c *HandshakeConfig) ServerCertificateName() string {
+	if c.VerifyServerName != "" {
+		return c.VerifyServerName
+	}
+
+	return c.ServerName
 }
 
 func (c *HandshakeConfig) WriteKeyLog(label string, clientRandom, secret []byte) {
